@@ -50,7 +50,7 @@ PROBES = ["image_size_changed_mid_iteration", "url_404", "url_garbage_body", "ur
           "fault_in_open", "caller_pil_image_survives", "animated_draw_keeps_tell",
           "image_closed_under_live_iterator", "two_seeks_without_next",
           "frame_equals_direct_format", "seek_then_next", "temp_write_failed", "gif_frame_equals_fresh_direct_format", "direct_format_equals_twin",
-          "cached_resize_script", "resize_then_whole_pass"]
+          "cached_resize_script", "resize_then_whole_pass", "terminal_resized_under_live_iterator"]
 COMPONENTS = {
     "real": ["BaseImage (from_file, from_url, close, _get_image, _close_image, _renderer, "
              "_get_render_data, draw, _display_animated)", "ImageIterator",
@@ -292,6 +292,8 @@ def run(ch, ctx, fault=None):
                           "image_size_setting_changed",
                           {"after": desc, "size": repr(sz), "before": repr(d["size0"])}, site)
 
+        script_dynamic = [False]
+
         def make_image():
             style = ch.pick("style", styles)
             cls = {"block": ti_image.BlockImage, "kitty": ti_image.KittyImage,
@@ -306,6 +308,8 @@ def run(ch, ctx, fault=None):
             kind = ch.pick("srckind", ("file", "pil_file", "pil_mem", "url", "url"))
             kw = {}
             sizing = ch.pick("sizing", ("fit", "width", "both", "dynamic"))
+            if script_dynamic[0]:
+                sizing = "fit"
             dyn_member = None
             if sizing == "dynamic":
                 dyn_member = ch.pick("dynmember", ("AUTO", "ORIGINAL", "FIT_TO_WIDTH"))
@@ -480,7 +484,9 @@ def run(ch, ctx, fault=None):
                 # earlier frames happened to be loaded, so byte equality with a twin
                 # that has a different access history is only meaningful for formats
                 # whose frames decode independently (WebP)
-                if "+A" not in itd["spec"] and im["fmt"] == "WEBP":
+                if itd.get("pad_stale"):
+                    pass
+                elif "+A" not in itd["spec"] and im["fmt"] == "WEBP":
                     pil.suspended += 1
                     try:
                         im["twin"].seek(j)
@@ -517,6 +523,11 @@ def run(ch, ctx, fault=None):
         # it, one whole pass, then a resize followed by a second whole pass
         script = ["construct", "iterate", "pass", "resized_pass"] \
             if ch.bool("cached_resize_script", 0.2) else []
+        if script and ch.bool("script_resizes_the_terminal", 0.4):
+            # ... the second variant resizes the terminal instead (under an image whose size
+            # follows it)
+            script[-1] = "term_resize"
+            script_dynamic[0] = True
         if script:
             n_ops = max(n_ops, 5)
             ctx.probe("cached_resize_script")
@@ -526,7 +537,8 @@ def run(ch, ctx, fault=None):
                 choices_ += [(2, "str"), (2, "format"), (2, "draw"), (3, "iterate"), (1, "nframes"),
                              (1, "imgseek"), (1, "imgclose"), (1, "with"), (2, "setsize")]
             if iters:
-                choices_ += [(9, "next"), (4, "pass"), (4, "resized_pass"), (3, "seek"), (2, "itclose"), (2, "abandon")]
+                choices_ += [(9, "next"), (4, "pass"), (4, "resized_pass"), (3, "seek"), (2, "itclose"), (2, "abandon"),
+                             (2, "term_resize")]
             op = ch.weighted("op", [c for c in choices_ if c[0]])
             if script:
                 op = script.pop(0) if (imgs or script[0] == "construct") \
@@ -535,9 +547,9 @@ def run(ch, ctx, fault=None):
             site = op
             exc = None
             fired0 = k.fault_done
-            d = ch.pick("img", imgs) if imgs and op not in ("construct", "next", "pass", "seek", "resized_pass",
+            d = ch.pick("img", imgs) if imgs and op not in ("construct", "next", "pass", "seek", "resized_pass", "term_resize",
                                                            "itclose", "abandon") else None
-            itd = ch.pick("iter", iters) if iters and op in ("next", "pass", "seek", "itclose", "resized_pass",
+            itd = ch.pick("iter", iters) if iters and op in ("next", "pass", "seek", "itclose", "resized_pass", "term_resize",
                                                             "abandon") else None
             expected_http_failure = None
             try:
@@ -607,6 +619,25 @@ def run(ch, ctx, fault=None):
                     if d["image"].closed:
                         continue
                     desc = do_setsize(d)
+                elif op == "term_resize":
+                    # the terminal is resized under a live iterator: images with a dynamic size
+                    # follow it, frames cached at the old size are not served any more
+                    cols = max(8, min(40, cols + ch.pick("dcols", (-3, -2, 2, 3, 5))))
+                    rows = max(6, min(20, rows + ch.pick("drows", (-2, 0, 0, 2))))
+                    vt.resize(rows, cols)
+                    desc = "terminal resized to %dx%d" % (cols, rows)
+                    for other in iters:
+                        # (a format specifier without a padding width means "the terminal's
+                        # width" - the width at the time the iterator was made)
+                        if other["spec"].split("+")[0] in ("", "#"):
+                            other["pad_stale"] = True
+                    ctx.probe("terminal_resized_under_live_iterator")
+                    site = "next"
+                    if not itd.get("orphan") and not itd["img"]["image"].closed:
+                        for _ in range(itd["img"]["n"]):
+                            desc = do_next(itd)
+                            if itd["closed"]:
+                                break
                 elif op == "resized_pass":
                     # the image is resized between two passes of a live iterator: cached
                     # frames of the old size are re-rendered on the way
@@ -780,7 +811,7 @@ def run(ch, ctx, fault=None):
                             ctx.probe("fault_in_" + fk)
                         if fault["kind"] == "tmp.write":
                             ctx.probe("temp_write_failed")
-                    if op in ("next", "pass", "resized_pass") and itd is not None:
+                    if op in ("next", "pass", "resized_pass", "term_resize") and itd is not None:
                         itd["closed"] = True
                         itd["errored"] = True
                 else:
